@@ -299,6 +299,37 @@ impl Property for C20 {
         }
         o.evals = 3;
         let _ = big_to_fr;
+        // (4) the same stored graph with a second input vector (every supplied value + 1), then the
+        // first vector again, back to back on this thread: results must depend on the inputs only
+        if !o.failed() && !case.values.is_empty() && !named.is_empty() {
+            let mut case2 = case.clone();
+            for v in case2.values.iter_mut() {
+                *v = Fx(v.0 + ark_bn254::Fr::from(1u64));
+            }
+            let b2 = build(&case2);
+            if b2.nodes == b.nodes && b2.outputs == b.outputs {
+                let want2 = interpret(&b2);
+                let named2: Vec<(String, Vec<ark_bn254::Fr>)> = b2.named.iter().map(|(n, v)| (n.clone(), v.iter().map(|f| f.0).collect())).collect();
+                for (round, (nm, wt)) in [(&named2, &want2), (&named, &want)].into_iter().enumerate() {
+                    match guarded(|| calc_witness(nm.clone(), &bytes)) {
+                        Ok(got) => {
+                            let got: Vec<BigUint> = got.iter().map(fr_to_big).collect();
+                            if &got != wt {
+                                let k = (0..wt.len()).find(|k| got.get(*k) != wt.get(*k)).unwrap_or(0);
+                                vfail!(o, "calc_witness on the same stored graph with {} differs from the reference interpretation at output {k}: got {:?}, expected {}", if round == 0 { "a second input vector (all values + 1)" } else { "the first input vector again" }, got.get(k), wt[k]);
+                                break;
+                            }
+                        }
+                        Err(p) => {
+                            vfail!(o, "calc_witness panicked on the second evaluation of a stored graph: {}", p.0);
+                            break;
+                        }
+                    }
+                    o.evals += 1;
+                }
+                o.label("second-input-vector");
+            }
+        }
         o
     }
     fn sample_view(&self, case: &Case) -> serde_json::Value {
